@@ -1,8 +1,9 @@
 #!/bin/bash
 # tools/runall.sh <quick|thorough> : every registered check on /repo as it is; prints one line per check and a verdict.
+V="$(cd "$(dirname "$0")/.." && pwd)"
 TIER="${1:-quick}"; BAD=0
 for c in C01 C02 C03 C04 C05 C06 C07 C08 C09 C10 C11 C12 C13 C14 C15 C16 C17 C18 C19 C20; do
-  OUT="$(/verif/bin/check $c $TIER 2>&1)"; RC=$?
+  OUT="$($V/bin/check $c $TIER 2>&1)"; RC=$?
   LINE="$(printf '%s\n' "$OUT" | grep -a "^$c $TIER:" | tail -1)"
   echo "rc=$RC $LINE"
   if [ $RC -ne 0 ]; then BAD=1; printf '%s\n' "$OUT" | grep -a "what:" | head -3 | cut -c1-300; fi
